@@ -1,6 +1,7 @@
 package main
 
 import (
+	"regexp"
 	"encoding/json"
 	"fmt"
 	"os"
@@ -254,6 +255,10 @@ func concStep(st *cState, in COp, out COut) (bool, *cState) {
 		delete(ns.Open, -1)
 		if n, ok2 := ns.M.N[h.Path]; ok2 && h.Had {
 			n.Data = []byte(h.Buf)
+		}
+		if n, ok2 := ns.M.N[h.Path]; ok2 && in.Data != "" {
+			// the appends themselves are judged by the record monitor (logMonitor), which also hands over the content they produced
+			n.Data = []byte(in.Data)
 		}
 		mo = ok()
 	case "hclose":
@@ -681,10 +686,25 @@ func concRun(prop, tier string, c Case, w *Worker) (res Result) {
 		res.violate("c11|"+sig, fmt.Sprintf("[%s clients=%d procs=%d reopened=%v] ", cfg, p.Clients, p.Procs, p.Reopened)+fmt.Sprintf(format, a...))
 		res.Detail = map[string]any{"cfg": cfg, "params": p, "history": describe()}
 	}
+	logContent := ""
 	if logH != nil {
 		call := clock.Add(1)
 		out := execCOp(rig, &clientState{log: logH}, COp{K: "logclose", Cl: p.Clients})
-		hist = append(hist, porcupine.Operation{ClientId: p.Clients, Input: COp{K: "logclose", Cl: p.Clients}, Call: call, Output: out, Return: clock.Add(1)})
+		ret := clock.Add(1)
+		if held := rig.LocksSettled(); len(held) > 0 {
+			viol("locks-held", "the shared handle was closed but the instance still holds %v", held)
+			return
+		}
+		if out.OK {
+			b, err := afero.ReadFile(rig.FS, "/s1/log")
+			rig.LocksSettled()
+			if err != nil {
+				viol("log-read", "reading the shared log after its handle was closed: %v", err)
+				return
+			}
+			logContent = string(b)
+		}
+		hist = append(hist, porcupine.Operation{ClientId: p.Clients, Input: COp{K: "logclose", Cl: p.Clients, Data: logContent}, Call: call, Output: out, Return: ret})
 	}
 	if held := rig.LocksSettled(); len(held) > 0 {
 		viol("locks-held", "all clients returned but the instance still holds %v", held)
@@ -703,6 +723,24 @@ func concRun(prop, tier string, c Case, w *Worker) (res Result) {
 		if o.Output.(COut).OK {
 			res.count("calls_ok", 1)
 		}
+	}
+	if logH != nil {
+		// appends through the shared handle: every record carries a unique value, so the content itself is the order of the
+		// appends - decided directly (exactly once, never torn, real-time order) instead of by search, and the appends leave
+		// the searched history (n concurrent appends to one buffer would cost the checker n! orders)
+		sig, msg, n := logMonitor(hist, logContent)
+		res.count("log_records_checked", int64(n))
+		if sig != "" {
+			viol(sig, "%s", msg)
+			return
+		}
+		kept := hist[:0:0]
+		for _, o := range hist {
+			if o.Input.(COp).K != "logwrite" {
+				kept = append(kept, o)
+			}
+		}
+		hist = kept
 	}
 	call := clock.Add(1)
 	hist = append(hist, porcupine.Operation{ClientId: p.Clients, Input: COp{K: "snapshot", Cl: p.Clients}, Call: call, Output: COut{OK: true, Tree: ft}, Return: clock.Add(1)})
@@ -837,9 +875,72 @@ func concWitness(p concP, c Case, w *Worker) (res Result) {
 	return
 }
 
+var logRecRe = regexp.MustCompile(`^<c[0-9]+-[0-9]+>`)
+
+// logMonitor decides the appends made through the shared O_APPEND handle from the content they left behind.
+func logMonitor(hist []porcupine.Operation, content string) (sig, msg string, n int) {
+	type wr struct {
+		call, ret int64
+		ok        bool
+		pos       int
+	}
+	ws := map[string]*wr{}
+	for _, o := range hist {
+		in := o.Input.(COp)
+		if in.K != "logwrite" {
+			continue
+		}
+		ws[in.Data] = &wr{call: o.Call, ret: o.Return, ok: o.Output.(COut).OK, pos: -1}
+		if !o.Output.(COut).OK {
+			return "log-append-failed", fmt.Sprintf("appending %s through the shared, open handle failed: %s", in.Data, o.Output.(COut).Err), len(ws)
+		}
+	}
+	rest, idx := content, 0
+	var order []string
+	for len(rest) > 0 {
+		m := logRecRe.FindString(rest)
+		if m == "" {
+			return "log-torn", fmt.Sprintf("the shared log is not a sequence of whole records at byte %d: %q", len(content)-len(rest), clip(rest, 60)), len(ws)
+		}
+		w, known := ws[m]
+		if !known {
+			return "log-foreign", fmt.Sprintf("the shared log holds %s, which nobody appended", m), len(ws)
+		}
+		if w.pos >= 0 {
+			return "log-duplicate", fmt.Sprintf("the shared log holds %s twice", m), len(ws)
+		}
+		w.pos = idx
+		order = append(order, m)
+		idx++
+		rest = rest[len(m):]
+	}
+	for k, w := range ws {
+		if w.ok && w.pos < 0 {
+			return "log-lost", fmt.Sprintf("the append of %s returned success, the handle was closed without error, and the record is not in the file (%d of %d records present)", k, len(order), len(ws)), len(ws)
+		}
+	}
+	// real time: a record whose append returned before another append was called precedes it
+	for i := 0; i < len(order); i++ {
+		for j := i + 1; j < len(order); j++ {
+			a, b := ws[order[i]], ws[order[j]]
+			if b.ret < a.call {
+				return "log-order", fmt.Sprintf("%s precedes %s in the shared log although the append of %s had returned before that of %s was called", order[i], order[j], order[j], order[i]), len(ws)
+			}
+		}
+	}
+	return "", "", len(ws)
+}
+
+func clip(s string, n int) string {
+	if len(s) > n {
+		return s[:n] + "..."
+	}
+	return s
+}
+
 func init() {
 	register(&Engine{Name: "conc", Props: []string{"C11"}, Cases: concCases, Run: concRun})
 	propMeta["C11"] = PropMeta{Level: "exploration",
-		Rule:        "per case 2..8 client goroutines run generated programs (3..6 API calls each: create/write/close of private files in shared directories, whole-file reads of shared files, mkdir, mkdirall, rename, remove, removeall on a small set of shared names with SQL wildcard characters, chmod/chown/chtimes, stat, list) against one instance (fresh, or reopened with an index rebuilt from the tape), GOMAXPROCS in {2,4,16}, with PRNG-driven yields/sleeps before every client call and at the drive open/close and drive-read seams; the binary is built with -race (a report kills the worker and is charged to the case); every call is recorded with call/return stamps from one atomic counter at the client boundary, and the history plus the final tree is checked for linearizability with porcupine against the reference model (write-back at close); then all locks must be free and the final tree must equal a rebuild from the tape; non-trivial = at least 3 overlapping call pairs of different clients and at least as many client switches at the index store as clients; distinct = distinct (interleaving signature, history)",
+		Rule:        "per case 2..8 client goroutines run generated programs (3..6 API calls each: create/write/close of private files in shared directories, whole-file reads of shared files, mkdir, mkdirall, rename, remove, removeall on a small set of shared names with SQL wildcard characters, chmod/chown/chtimes, stat, list) against one instance (fresh, or reopened with an index rebuilt from the tape), GOMAXPROCS in {2,4,16}, with PRNG-driven yields/sleeps before every client call and at the drive open/close and drive-read seams; the binary is built with -race (a report kills the worker and is charged to the case); every call is recorded with call/return stamps from one atomic counter at the client boundary, and the history plus the final tree is checked for linearizability with porcupine against the reference model (write-back at close); in half of the histories all clients also append unique records through ONE shared O_APPEND handle - those appends are decided from the file content they leave (every acknowledged record exactly once, never torn or interleaved, nothing foreign, order consistent with real time: a record whose append returned before another was called precedes it) and the content is handed to the model at the close of the handle; then all locks must be free and the final tree must equal a rebuild from the tape; non-trivial = at least 3 overlapping call pairs of different clients and at least as many client switches at the index store as clients; distinct = distinct (interleaving signature, history)",
 		Assumptions: []string{"files are only read or rewritten through handles by clients for which the sequential model is unambiguous (shared files are never removed or renamed; private files are touched by their owner only): handle-versus-rename/remove shapes are sequential questions", "schedules the perturbed Go scheduler never produces are not explored", "a linearizability check that times out (60 s) is inconclusive"}}
 }
